@@ -31,14 +31,26 @@ type ev = {
   unsupported : string;
   model : content res;                       (* model result (layout) *)
   spec_of : ty -> obs;                       (* specification of the values, given the result type *)
+  spec_alt : ty -> obs;                      (* second admissible reading (value-directed choice of the union alternative) *)
   ty_spec : ty option;                       (* specified result type (compared after erase_sz), if claimed *)
   may_fail : bool;                           (* the specification leaves failure open (precondition not met) *)
 }
 
+(* records as dictionaries: fields sorted by name (last resort when a value sits in a union alternative with
+   another field order than either reading predicts; the result type is then reported on its own) *)
+let rec norm_fields (v : value) : value =
+  match v with
+  | VList l -> VList (List.map norm_fields l)
+  | VTup l -> VTup (List.map norm_fields l)
+  | VRec fs ->
+    VRec (List.sort (fun (a, _) (b, _) -> compare (string_of_name a) (string_of_name b))
+            (List.map (fun (k, x) -> (k, norm_fields x)) fs))
+  | _ -> v
+
 let all_ok rs = List.for_all (function Ok _ -> true | Err _ -> false) rs
-let lists_of (cs : content list) : value list list option =
+let lists_of (cs : content list) : (ty * value list) list option =
   let rs = List.map to_list cs in
-  if all_ok rs then Some (List.map (function Ok v -> v | Err _ -> []) rs) else None
+  if all_ok rs then Some (List.map2 (fun c r -> (type_of c, (match r with Ok v -> v | Err _ -> []))) cs rs) else None
 
 let rec ty_has_nd (c : content) : bool =
   (* n-d NumpyArray somewhere: its type looks like a RegularArray type but the classes do not merge *)
@@ -71,24 +83,31 @@ let eval (op : string) (args : Sx.t list) : ev =
     let vss = lists_of cs in
     { inputs_valid = List.for_all valid_b cs; unsupported = "";
       model = concat_model (bool_of_sx mg) mbb cs;
-      spec_of = (fun t -> match vss with Some v -> obs_of_list (concat_spec t v) | None -> OBad "input-to_list");
+      spec_of = (fun t -> match vss with Some v -> obs_of_list (concat_spec mbb t v) | None -> OBad "input-to_list");
+      spec_alt = (fun t -> match vss with Some v -> obs_of_list (concat_spec_v t v) | None -> OBad "input-to_list");
       ty_spec = (if type_claim cs && bool_of_sx mg then Some (concat_ty mbb (List.map type_of cs)) else None);
       may_fail = false }
   | "mergemany", ls ->
     let cs = List.map content_of_sx ls in
     let vss = lists_of cs in
-    let first = List.hd cs in
-    let pre = List.for_all (fun x -> mergeable true first x) (List.tl cs) in
+    let rec pairwise = function
+      | [] -> true
+      | x :: rest -> List.for_all (fun y -> mergeable true x y) rest && pairwise rest in
+    let pre = pairwise cs in
     { inputs_valid = List.for_all valid_b cs; unsupported = "";
       model = mergemany cs;
-      spec_of = (fun t -> match vss with Some v -> obs_of_list (concat_spec t v) | None -> OBad "input-to_list");
+      spec_of = (fun t -> match vss with Some v -> obs_of_list (concat_spec true t v) | None -> OBad "input-to_list");
+      spec_alt = (fun t -> match vss with Some v -> obs_of_list (concat_spec_v t v) | None -> OBad "input-to_list");
       ty_spec = None; may_fail = not pre }
   | "mergeasunion", [a; b] ->
     let ca = content_of_sx a and cb = content_of_sx b in
     let vss = lists_of [ca; cb] in
-    { inputs_valid = valid_b ca && valid_b cb; unsupported = "";
+    { inputs_valid = valid_b ca && valid_b cb;
+      (* ak.concatenate never hands a union to merge_as_union (a union is mergeable with everything) *)
+      unsupported = (if is_union ca || is_union cb then "union-operand" else "");
       model = Ok (merge_as_union ca cb);
-      spec_of = (fun t -> match vss with Some v -> obs_of_list (Ok (List.concat v)) | None -> OBad "input-to_list");
+      spec_of = (fun t -> match vss with Some v -> obs_of_list (Ok (List.concat (List.map snd v))) | None -> OBad "input-to_list");
+      spec_alt = (fun _ -> OBad "none");
       ty_spec = None; may_fail = false }
   | "simplify_option", [l] ->
     let c = content_of_sx l in
@@ -100,6 +119,7 @@ let eval (op : string) (args : Sx.t list) : ev =
     { inputs_valid = inner_ok && (match vs with Ok _ -> true | Err _ -> false); unsupported = "";
       model = simplify_option c;
       spec_of = (fun _ -> match vs with Ok v -> obs_of_list (simplify_option_spec v) | Err _ -> OBad "input-to_list");
+      spec_alt = (fun _ -> OBad "none");
       ty_spec = None; may_fail = false }
   | "simplify_union", [mg; mb; l] ->
     let c = content_of_sx l in
@@ -108,6 +128,7 @@ let eval (op : string) (args : Sx.t list) : ev =
     { inputs_valid = parts_ok && (match vs with Ok _ -> true | Err _ -> false); unsupported = "";
       model = simplify_union (bool_of_sx mg) (bool_of_sx mb) c;
       spec_of = (fun t -> match vs with Ok v -> obs_of_list (simplify_union_spec t v) | Err _ -> OBad "input-to_list");
+      spec_alt = (fun _ -> OBad "none");
       ty_spec = None; may_fail = false }
   | "astype", [A name; l] ->
     let c = content_of_sx l in
@@ -117,6 +138,7 @@ let eval (op : string) (args : Sx.t list) : ev =
     { inputs_valid = valid_b c; unsupported = (if has_union t then "union" else "");
       model = astype_model dst c;
       spec_of = (fun _ -> match vs with Ok v -> obs_of_list (astype_spec dst t v) | Err _ -> OBad "input-to_list");
+      spec_alt = (fun _ -> OBad "none");
       ty_spec = Some (erase_sz (astype_ty dst t)); may_fail = false }
   | _ -> bad ("unknown op " ^ op)
 
@@ -176,8 +198,17 @@ let verdict id op args impl =
            let so = r.spec_of ti in
            let closure_ok = valid_b ci in
            let type_ok = (match r.ty_spec with None -> true | Some t -> ty_eqb (erase_sz ti) t) in
-           let is_ = obs_eq io so in
-           if not is_ then
+           let is_ = obs_eq io so ||
+                     (match io, so, r.spec_alt ti with
+                      | OVal (VList li), OVal (VList l1), OVal (VList l2) ->
+                        (* element by element, either admissible reading *)
+                        List.length li = List.length l1 && List.length li = List.length l2 &&
+                        List.for_all2 (fun x (a, b) -> value_eqb x a || value_eqb x b || value_eqb (norm_fields x) (norm_fields a)) li (List.combine l1 l2)
+                      | _, _, a -> obs_eq io a) in
+           if not is_ && r.may_fail then
+             (* mergemany called on operands that are not mergeable with the first: nothing is promised *)
+             Printf.sprintf "(%s skip precondition)" id
+           else if not is_ then
              Printf.sprintf "(%s viol value (impl %s) (spec %s) (type %s))" id (string_of_obs io) (string_of_obs so) (tobs ti)
            else if not closure_ok then
              Printf.sprintf "(%s viol closure (impl %s))" id (Sx.to_string d)
